@@ -4,6 +4,7 @@ CONSTANTS
   L = 4
   FixPred = FALSE
   FixLeave = FALSE
+  FixWrap = FALSE
   MaxTry = 2
   MCLayout <- Lay4
   InitMembers = {1, 2, 4}
